@@ -72,3 +72,21 @@ func init() {
 		NotCovered:  "that a kept $ref actually resolves to a node on a cycle; that denormalizeRef/rebase compute the right relative form; determinism of the output beyond C06's rules",
 	})
 }
+
+func init() {
+	registerProperty(&Property{
+		ID:    "C04",
+		Rules: []string{"cut-check", "nilres", "no-panic-path"},
+		Explanation: "Termination over all graphs is not decidable here; decided are the mechanism's necessary conditions. cut-check: every cyclic SCC of the package's static call graph is classified call site by call site as structural descent (argument strictly below the callee's parameter, parent stack passed unchanged) or reference following (on every path to the recursive call isCircular(k, base, parentRefs...) returned false for a normalised k, and the call receives append(parentRefs, k.String()) for that same k); recursion outside the family, or a cycle of pass-through calls, is a violation; isCircular uses one normalised key for memo lookup, stack comparison and memo store. nilres: a nil *Schema result implies a provably non-nil error, and results are dereferenced only after a plain err != nil return or under an explicit != nil guard. no-panic-path: the panic-capable constructs (Must*, panic, unchecked type assertions, unguarded index/slice expressions, stores into possibly-nil maps) reachable from the exported Expand*/Resolve* entry points equal an audited table.",
+		NotCovered:  "that the loop variant is bounded (id-driven base path growth makes canonical keys unbounded - invisible structurally), stack depth, work bounds, panics inside dependencies",
+	})
+}
+
+func init() {
+	registerProperty(&Property{
+		ID:    "C08",
+		Rules: []string{"errflow", "single-decision", "nilres", "ref-store"},
+		Explanation: "The error-discipline template filled from the repository. errflow: in every function reachable from an exported Expand*/Resolve* entry point, every call that can fail (package-internal error-returning functions, the document loader called through its field, DynamicJSONToStruct, Pointer.Get, json.Unmarshal, jsonreference.New) has its error returned directly, or tested by the very next statement with `err != nil` / the stop predicate and the same value returned on that branch, or tested with `err == nil`; blank assignment, a dropped result, an intervening overwrite, a check on another variable, or returning nil in the error branch are violations; two audited exceptions are keyed by caller:callee#n with a reason. single-decision: ContinueOnError is read in exactly one function, a predicate over the error whose body answers 'stop' only under err != nil && !ContinueOnError and does so first. nilres and ref-store (shared with C04/C03) make continuing safe and leave a failed $ref verbatim.",
+		NotCovered:  "that every unresolvable target produces an error inside the dependencies; spurious errors on well-formed input (value-level); that everything not depending on a failed $ref is expanded as it would have been otherwise",
+	})
+}
